@@ -17,4 +17,5 @@ def standin(*props: str):
 
 def for_property(pid: str) -> List[Callable[..., Dict[str, Any]]]:
     import bounded.keyspace  # noqa: F401
+    import bounded.bsprog  # noqa: F401
     return _REG.get(pid, [])
